@@ -49,3 +49,9 @@ Example C28_example :
   map valid_address ["world"; "a:b-1:c_2"; "a::b"; ":a"; ""] = [true; true; false; false; false] /\
   map lexer_asset ["USD//2"; "12A"; "9"; "1/2"; "USD_X"] = [true; true; false; false; false].
 Proof. vm_compute. repeat split. Qed.
+
+(* ---------- the same of the compiled program on the bytecode VM (Machine/RunCorrect.v: vm_run = Sem.run) ---------- *)
+From LV Require Import Machine.Vm Machine.Compile Machine.VmRun Machine.RunCorrect.
+Theorem C28_machine_wellformed : forall p given s vr, vm_run p given s = Ok vr -> Forall wellformed (vr_posts vr).
+Proof. intros p given s vr H. destruct (vm_run_ok _ _ _ _ H) as [r [Hr ->]]. exact (C28_wellformed _ _ _ _ Hr). Qed.
+Print Assumptions C28_machine_wellformed.
